@@ -102,10 +102,6 @@ EXPORT errno_t _wcsncpy_s_chk(wchar_t *restrict dest, rsize_t dmax,
     const wchar_t *overlap_bumper;
     const size_t destsz = dmax * sizeof(wchar_t);
 
-    if (unlikely(slen == 0 && dest && dmax)) {
-        *dest = L'\0';
-        return EOK;
-    }
     CHK_DEST_NULL("wcsncpy_s")
     CHK_DMAX_ZERO("wcsncpy_s")
     if (destbos == BOS_UNKNOWN) {
@@ -113,6 +109,14 @@ EXPORT errno_t _wcsncpy_s_chk(wchar_t *restrict dest, rsize_t dmax,
         BND_CHK_PTR_BOUNDS(dest, destsz);
     } else {
         CHK_DESTW_OVR_CLEAR("wcsncpy_s", destsz, destbos)
+    }
+    if (unlikely(slen == 0)) { /* nothing to copy: the empty string */
+#ifdef SAFECLIB_STR_NULL_SLACK
+        memset(dest, 0, destsz);
+#else
+        *dest = L'\0';
+#endif
+        return EOK;
     }
     CHK_SRCW_NULL_CLEAR("wcsncpy_s", src)
     if (unlikely(slen > RSIZE_MAX_WSTR)) {
